@@ -201,6 +201,7 @@ INext == \/ \E i \in UVars :
 AllOps == {"append", "prepend", "insert", "rmkey", "find", "contains", "rmat", "rmref", "rmfront", "rmback", "clear",
            "front", "back", "swapself", "swap", "copy", "assign", "appendall", "rmall", "eq"}
 FewOps == {"append", "rmkey", "rmfront", "rmback", "clear", "find"}
+TwoOps == {"append", "rmback", "rmkey", "clear", "swap", "copy", "assign", "appendall", "rmall", "eq", "swapself"}
 ISpec == IInit /\ [][INext]_ivars
 IView == <<hp, st>>
 
